@@ -91,3 +91,20 @@ def hnfWithU (a : Mat) : Option (Mat × Mat × Nat) :=
     | some (s, k) => some (s.a.drop k, s.u, k)
 
 end NTV.Hnf
+
+namespace NTV.Hnf
+/-- `hnf_with_ker` / `HNF::new` / `HNF::kernel` -/
+def hnfNew (a : Mat) : Option Mat := (hnfWithU a).map (·.1)
+def kernel (a : Mat) : Option Mat := (hnfWithU a).map (fun r => r.2.1.take r.2.2)
+/-- `HNF::union`; the two error values model the panics `a.0[0]` on an empty operand (index) and
+`assert_eq!` on a width mismatch (assert) -/
+def union (a b : Mat) : Except String (Option Mat) :=
+  match a, b with
+  | ra :: _, rb :: _ => if ra.length = rb.length then .ok (hnfNew (a ++ b)) else .error "assert"
+  | _, _ => .error "index"
+def dim (h : Mat) : Nat := h.length
+def deg (h : Mat) : Nat := match h with | [] => 0 | r :: _ => r.length
+/-- `HNF::determinant` -/
+def determinant (h : Mat) : Int :=
+  if dim h ≠ deg h then 0 else (List.range h.length).foldl (fun p i => p * ent h i i) 1
+end NTV.Hnf
